@@ -12,6 +12,7 @@
 #include <iostream>
 #include <memory>
 #include <mutex>
+#include <numeric>
 #include <regex>
 #include <sstream>
 #include <string>
@@ -212,5 +213,15 @@ inline int translates(int x)
     try { may_fail(x); }
     catch (const first_error& e) { throw other_error(e.what()); }
     return x;
+}
+
+// G-fold: a fold whose start value is narrower than what the step function carries
+inline std::size_t folds_narrow(const std::vector<std::size_t>& v)
+{
+    return std::accumulate(v.begin(), v.end(), 0, [](std::size_t s, std::size_t x) { return s * 31 + x; });
+}
+inline std::size_t folds_wide(const std::vector<std::size_t>& v)
+{
+    return std::accumulate(v.begin(), v.end(), std::size_t{ 0 }, [](std::size_t s, std::size_t x) { return s * 31 + x; });
 }
 } // namespace vfix
